@@ -1,7 +1,7 @@
 //! C03 - information content equals -ln(n/N) for each annotation kind.
 
 use super::c01::POOL;
-use super::common::AnnGroups;
+use super::c02::ann_groups;
 use crate::ctx::{guard, Ctx};
 use crate::drive;
 use crate::model::{ic_value, Facts, Kind, Mode, RefOnt, KINDS};
@@ -9,6 +9,15 @@ use crate::obs::{close32, kind_fn, Obs};
 use crate::space::all_dags;
 use hpo::term::InformationContent;
 use serde_json::json;
+
+/// Beyond the documented limit (N > 65 535) the comparison grants what any f32 evaluation of -ln(n/N) needs: ln N - ln n
+/// is quantised to one unit in the last place of ln N per operand (9.5e-7 up to N = 2^23, 1.9e-6 up to 2^46, 3.8e-6 above),
+/// so the band is max(2e-6, 2 ulp(ln N)) + 1e-5 of the value (for N <= 65 535 this is `close32`).
+fn close_beyond(v: f32, want: f64, total: usize) -> bool {
+    let ln_total = (total as f64).ln() as f32;
+    let ulp = f32::from_bits(ln_total.to_bits() + 1) - ln_total;
+    v.is_finite() && v >= 0.0 && ((v as f64) - want).abs() <= (2.0 * ulp as f64).max(2e-6) + 1e-5 * want
+}
 
 /// Strict, tolerance-free part of the property on one observed ontology.
 fn strict(ctx: &mut Ctx, obs: &Obs, r: &RefOnt, case: &dyn Fn() -> serde_json::Value) {
@@ -108,7 +117,7 @@ fn lattice(ctx: &mut Ctx, max_total: usize) {
             ctx.sample(|| json!({"N": total, "n": "0..=7", "kinds": ["gene", "omim", "orpha"]}));
         }
     }
-    ctx.space("setters/u16-border", "N in {65534, 65535} accepted with n in {1, N/2, N-1, N}; N in {65536, 65537, 70000, 90000, 100000, 2^24, usize::MAX/2} through the setters and 65536 / 70000 genes through the Builder: refused (documented) or exactly -ln(n/N)");
+    ctx.space("setters/u16-border", "N in {65534, 65535} accepted with n in {1, N/2, N-1, N}; N in {65536, 65537, 70000, 90000, 100000, 2^24, usize::MAX/2} through the setters and 65536 / 70000 genes through the Builder: refused (documented; by whichever call) or -ln(n/N); 40000 and 65535 genes through the Builder (counts above 2^15): must build and be -ln(n/N)");
     for (total, n) in [(65534usize, 1usize), (65534, 32767), (65534, 65533), (65534, 65534), (65535, 1), (65535, 32768), (65535, 65534), (65535, 65535)] {
         if !ctx.take() {
             continue;
@@ -154,7 +163,7 @@ fn lattice(ctx: &mut Ctx, max_total: usize) {
             Ok(rs) => {
                 for r in rs {
                     if let Ok(v) = r {
-                        if !(v.is_finite() && v >= 0.0 && ((v as f64) - want).abs() <= 1e-6 + 1e-5 * want) {
+                        if !close_beyond(v, want, total) {
                             ctx.violation("InformationContent::set_*", "hands out a value that is not -ln(n/N) beyond the u16 border (refusing would be fine)", json!({"N": total, "n": n, "observed": v, "expected": want}));
                             break;
                         }
@@ -165,8 +174,10 @@ fn lattice(ctx: &mut Ctx, max_total: usize) {
         }
         ctx.sample(|| json!({"N": total, "n": n, "beyond_documented_limit": true}));
     }
-    // the same through the Builder: 65 536 and 70 000 genes, all but ten of them on the lower of two terms
-    for total in [65_536u32, 70_000] {
+    // the same through the Builder: 40 000 and 65 535 genes (inside the documented limit: must build, and the counts
+    // 39 990 / 65 525 lie beyond every 15-bit quantity) and 65 536 / 70 000 genes (beyond it: the build may refuse -
+    // in whichever call - or must be right), all but ten of them on the lower of two terms
+    for total in [40_000u32, 65_535, 65_536, 70_000] {
         if !ctx.take() {
             continue;
         }
@@ -175,6 +186,8 @@ fn lattice(ctx: &mut Ctx, max_total: usize) {
         ctx.validated();
         ctx.nontrivial();
         ctx.transitions(total as u64 + 4);
+        let beyond = total > 65_535;
+        // Ok(None): refused by a call that returns an error
         let res = guard(|| -> Result<Option<[f32; 2]>, String> {
             use hpo::builder::Builder;
             let mut b = Builder::new();
@@ -185,10 +198,17 @@ fn lattice(ctx: &mut Ctx, max_total: usize) {
             let mut b = b.connect_all_terms();
             for g in 0..total {
                 let t: u32 = if g < 10 { 1 } else { 2 };
-                b.annotate_gene(g.into(), &format!("G{g}"), t.into()).map_err(|e| e.to_string())?;
+                match b.annotate_gene(g.into(), &format!("G{g}"), t.into()) {
+                    Ok(()) => {}
+                    // where a build with more than 65 535 genes is refused is open: the 65 536th annotate_gene is as
+                    // good a place as calculate_information_content
+                    Err(_) if g >= 65_535 => return Ok(None),
+                    Err(e) => return Err(format!("annotate_gene({g}, {t}): {e}")),
+                }
             }
             match b.calculate_information_content() {
-                Err(_) => Ok(None),
+                Err(_) if beyond => Ok(None),
+                Err(e) => Err(format!("calculate_information_content: {e}")),
                 Ok(b) => {
                     let ont = b.build_minimal();
                     Ok(Some([ont.hpo(1u32).unwrap().information_content().gene(), ont.hpo(2u32).unwrap().information_content().gene()]))
@@ -200,23 +220,23 @@ fn lattice(ctx: &mut Ctx, max_total: usize) {
             Ok(Ok(None)) => {}
             Ok(Ok(Some(v))) => {
                 for k in 0..2 {
-                    if !(v[k].is_finite() && v[k] >= 0.0 && ((v[k] as f64) - want[k]).abs() <= 1e-6 + 1e-5 * want[k]) {
-                        ctx.violation("Builder::calculate_information_content", "hands out an ontology whose information content is not -ln(n/N) beyond the u16 border (refusing would be fine)", json!({"genes": total, "genes_on_lower_term": total - 10, "observed": v, "expected": want}));
+                    if !close_beyond(v[k], want[k], total as usize) {
+                        ctx.violation("Builder::calculate_information_content", if beyond { "hands out an ontology whose information content is not -ln(n/N) beyond the u16 border (refusing would be fine)" } else { "information content is not -ln(n/N) with tens of thousands of genes" }, json!({"genes": total, "genes_on_lower_term": total - 10, "observed": v, "expected": want}));
                         break;
                     }
                 }
             }
             Ok(Err(e)) => ctx.violation("Builder", "construction fails on valid facts", json!({"genes": total, "observed": e})),
-            Err(p) => ctx.violation("Builder::calculate_information_content", "panics beyond the u16 border", json!({"genes": total, "observed": p})),
+            Err(p) => ctx.violation("Builder::calculate_information_content", if beyond { "panics beyond the u16 border" } else { "panics" }, json!({"genes": total, "observed": p})),
         }
-        ctx.sample(|| json!({"genes": total, "beyond_documented_limit": true}));
+        ctx.sample(|| json!({"genes": total, "beyond_documented_limit": beyond}));
     }
 }
 
 pub fn run(ctx: &mut Ctx) {
-    ctx.rule = "ontology part: case = (labelled DAG, annotated subset S[, emptied kind]) with totals 3 genes / 2 OMIM / 4 ORPHA; setter part: case = one N with every n <= N; distinct by construction; non-trivial = some annotated term has ancestors, resp. 0 < n < N".into();
+    ctx.rule = "ontology part: case = (labelled DAG, annotated subset S[, emptied kind]) with totals 6 genes / 3 OMIM / 5 ORPHA (text path, which cannot carry bare records: 4 / 2 / 3); setter part: case = one N with every n <= N; distinct by construction; non-trivial = some annotated term has ancestors, resp. 0 < n < N".into();
     ctx.assumptions = vec![
-        "f32 values compared with atol 1e-6 + rtol 1e-5 against -ln(n/N) computed in f64; sign, finiteness and the zero rules strictly".into(),
+        "f32 values compared with atol 2e-6 + rtol 1e-5 against -ln(n/N) computed in f64 (beyond N = 65 535: atol max(2e-6, 2 ulp of ln N)); sign, finiteness and the rule 'exactly 0 when n or N is 0' strictly".into(),
         "N <= 65535 (documented limit of the f32 conversion)".into(),
     ];
     // 1. the whole C02 exploration: every path's observation includes the three information contents
@@ -239,18 +259,21 @@ pub fn run(ctx: &mut Ctx) {
                 }
                 let base = Facts::from_dag(d, &POOL);
                 let ids: Vec<u32> = base.terms.iter().map(|t| t.id).collect();
-                let groups = AnnGroups::new(s, &ids);
+                let groups = ann_groups(s, &ids);
                 let full = groups.interleaved();
                 let mut variants: Vec<(Vec<crate::model::AnnFact>, String)> = vec![(full.clone(), "all kinds".into())];
                 for k in KINDS {
                     variants.push((full.iter().filter(|a| a.kind != k).cloned().collect(), format!("no {} records", k.name())));
                 }
-                // every record annotated to every term of S as well (a term linked to all records)
+                // every record annotated to every term of S as well (a term linked to all records: n = N)
                 let mut all_on: Vec<crate::model::AnnFact> = full.clone();
                 for i in 0..n {
                     if s >> i & 1 == 1 {
-                        for rec in [super::common::G1, super::common::G2, super::common::G3, super::common::O1, super::common::O2, super::common::R1, super::common::R2, super::common::R3, super::common::R4] {
+                        for rec in [super::common::G1, super::common::G2, super::common::O1, super::common::R1, super::common::R2] {
                             all_on.push(Facts::ann(rec.0, rec.1, rec.2, Some(ids[i])));
+                        }
+                        for b in &groups.bare {
+                            all_on.push(Facts::ann(b.kind, b.id, &b.name, Some(ids[i])));
                         }
                     }
                 }
@@ -402,7 +425,8 @@ pub fn run(ctx: &mut Ctx) {
                                     Kind::Omim => t.information_content().omim_disease(),
                                     Kind::Orpha => t.information_content().orpha_disease(),
                                 };
-                                if got != 0.0 {
+                                // (n = N > 0: the statement demands -ln(1) up to rounding, exactly 0 only when n or N is 0)
+                                if !(got >= 0.0 && close32(got, 0.0)) {
                                     return Some((format!("InformationContent::{}", kind_fn(kind)), format!("HP:{top} is linked to all {total} records: observed {got} expected 0")));
                                 }
                             }
@@ -417,6 +441,81 @@ pub fn run(ctx: &mut Ctx) {
                 }
             }
             ctx.sample(|| json!({"N per kind": sizes.iter().map(|s| s.1).collect::<Vec<_>>()}));
+        }
+    }
+    // 4b. more terms than any pre-sized table or 16-bit term index holds (the term arena is created for 18 000 terms):
+    // a flat ontology whose records sit on the first leaf, on the leaves around arena position 18 000 (thorough: and
+    // 65 536) and on the LAST leaves in supply order; every term's information content, annotated or not
+    {
+        let t_count: u32 = if thorough { 70_000 } else { 20_000 };
+        let mut marked: Vec<u32> = vec![1, 17_997, 17_998, 17_999, 18_000, t_count - 1, t_count];
+        if thorough {
+            marked.extend([65_533, 65_534, 65_535, 65_536, 65_537]);
+        }
+        marked.sort_unstable();
+        ctx.space("many-terms", &format!("HP:1, HP:118 and {t_count} leaves supplied in ascending order; one gene on each of the leaves {marked:?}; OMIM 1 on the last leaf, OMIM 2 on the first and the last, OMIM 3 bare; ORPHA 1 on the last but one leaf, ORPHA 2 on every 1000th; Builder and binary v3: the information content of EVERY term against -ln(n/N)"));
+        for path in ["builder", "binary v3"] {
+            if !ctx.take() {
+                continue;
+            }
+            ctx.state();
+            ctx.nontrivial();
+            ctx.exec();
+            ctx.validated();
+            let mut f = Facts::default();
+            f.version = (2024, 2, 29);
+            f.terms.push(Facts::term(1, "All"));
+            f.terms.push(Facts::term(118, "Phenotypic abnormality"));
+            f.edges.push((118, 1));
+            for i in 1..=t_count {
+                f.terms.push(Facts::term(10_000 + i, "leaf"));
+                f.edges.push((10_000 + i, 118));
+            }
+            for (j, m) in marked.iter().enumerate() {
+                f.anns.push(Facts::ann(Kind::Gene, 1 + j as u32, "G", Some(10_000 + m)));
+            }
+            f.anns.push(Facts::ann(Kind::Omim, 1, "O1", Some(10_000 + t_count)));
+            f.anns.push(Facts::ann(Kind::Omim, 2, "O2", Some(10_001)));
+            f.anns.push(Facts::ann(Kind::Omim, 2, "O2", Some(10_000 + t_count)));
+            f.anns.push(Facts::ann(Kind::Omim, 3, "O3", None));
+            f.anns.push(Facts::ann(Kind::Orpha, 1, "R1", Some(10_000 + t_count - 1)));
+            for i in (1000..=t_count).step_by(1000) {
+                f.anns.push(Facts::ann(Kind::Orpha, 2, "R2", Some(10_000 + i)));
+            }
+            ctx.transitions(f.n_steps());
+            let built = if path == "builder" { drive::build(&f, Mode::Defaults) } else { drive::from_bytes(&crate::encode::encode(&f, &crate::encode::EncOpts::v(3))).unwrap_or_else(|p| Err(format!("panic: {p}"))) };
+            match built {
+                Err(e) => ctx.violation(if path == "builder" { "Builder" } else { "Ontology::from_bytes" }, &format!("[{path}] construction fails on valid facts"), json!({"layout": "many terms", "terms": t_count + 2, "observed": e})),
+                Ok(ont) => {
+                    // direct oracle: (n per kind) of leaf i
+                    let counts = |i: u32| -> [usize; 3] { [marked.contains(&i) as usize, (i == t_count) as usize * 2 + (i == 1) as usize, (i == t_count - 1) as usize + (i % 1000 == 0) as usize] };
+                    let totals = [marked.len(), 3usize, 2];
+                    let res = guard(|| -> Option<(String, String)> {
+                        for id in [1u32, 118].into_iter().chain((1..=t_count).map(|i| 10_000 + i)) {
+                            let Some(t) = ont.hpo(id) else {
+                                return Some(("Ontology::hpo".to_string(), format!("term {id} is missing")));
+                            };
+                            // (the two top terms are linked to every record that has a term: all but the bare OMIM 3)
+                            let n = if id < 10_000 { [marked.len(), 2, 2] } else { counts(id - 10_000) };
+                            let ic = t.information_content();
+                            for (k, got) in [ic.gene(), ic.omim_disease(), ic.orpha_disease()].into_iter().enumerate() {
+                                let want = ic_value(totals[k], n[k]);
+                                if !(got.is_finite() && got >= 0.0 && close32(got, want) && (n[k] > 0 || got == 0.0)) {
+                                    return Some((format!("InformationContent::{}", kind_fn(KINDS[k])), format!("term {id} (position {} of {} in supply order): n = {}, N = {}: observed {got} expected {want}", if id < 10_000 { 0 } else { id - 10_000 + 2 }, t_count + 2, n[k], totals[k])));
+                                }
+                            }
+                        }
+                        None
+                    });
+                    match res {
+                        Ok(None) => {}
+                        Ok(Some((site, det))) => ctx.violation(&site, &format!("[{path}, many terms] information content is not -ln(n/N)"), json!({"layout": format!("flat ontology with {t_count} leaves, genes on the leaves {marked:?}"), "difference": det})),
+                        Err(p) => ctx.violation("HpoTerm::information_content", &format!("[{path}, many terms] panics"), json!({"observed": p})),
+                    }
+                }
+            }
+            ctx.sample(|| json!({"terms": t_count + 2, "path": path, "annotated_leaves": marked}));
+            crate::ctx::trim_heap();
         }
     }
     // 5. the setters on a sparse grid up to the u16 border: N, n in {2^k - 1, 2^k, 2^k + 1 : k <= 16} and {1, N-1, N}
